@@ -79,6 +79,9 @@ int main(int argc, char** argv) {
     uint64_t progSeed = rng.next();
     bool shuffleInit  = (variant == V_DETID || variant == V_DETID_PIA || variant == V_NOPUSH) && rng.below(2);
     bool dynamicPush  = variant != V_NOPUSH && rng.below(2);
+    // big generations: more initial items than the executor's minimum window (1280), so that the window
+    // adaptation (calculateWindow / nextWindow, per-thread commit statistics) decides round membership
+    bool bigGen = H.paramInt("biggen", 0) && rng.below(3) == 0;
     std::string comp  = std::string("Deterministic:") + VN[variant];
     H.hangKey         = "C07:" + comp + ":hang";
     Snapshot first;
@@ -102,7 +105,16 @@ int main(int argc, char** argv) {
         Rng prng(progSeed);
         c.salt = prng.next();
         c.threads = 2; // generation must not depend on the thread count of this run
-        generate(c, prng, fake, H.thorough, maxItemsParam > 0 ? maxItemsParam : 400);
+        if (bigGen) {
+          for (unsigned tries = 0; tries < 8; ++tries) {
+            generate(c, prng, fake, true, 6000);
+            if (c.initial.size() >= 2000 && c.nObjs >= 16)
+              break;
+          }
+          for (auto& p : c.prog)
+            p.delayKind = 0;
+        } else
+          generate(c, prng, fake, H.thorough, maxItemsParam > 0 ? maxItemsParam : 400);
         c.threads = threadCounts[r];
         for (auto& p : c.prog) { // deterministic-executor contract
           p.pushBefore = 0;
@@ -125,7 +137,7 @@ int main(int argc, char** argv) {
         beginJson = J().kv("component", comp).kv("variant", VN[variant]).raw("threads_per_run", jarr(threadCounts))
                         .kv("items", (uint64_t)c.prog.size()).kv("initial", (uint64_t)c.initial.size())
                         .kv("objects", c.nObjs).kv("dynamic_push", dynamicPush).kv("shuffled_initial", shuffleInit)
-                        .kv("sockets", nsock).str();
+                        .kv("big_generation", bigGen).kv("sockets", nsock).str();
         H.begin(k, beginJson);
       }
       // the executor runs several barriers per round and one round per few items: keep the noise light
@@ -133,6 +145,12 @@ int main(int argc, char** argv) {
       unsigned spinProb  = oversub ? 65535u : (unsigned)rng.pick({0, 0, 128, 2048});
       galois::setActiveThreads(c.threads);
       perturb_case(rng.next(), pointProb, spinProb, 40);
+      if (bigGen) { // desynchronise the threads right where they read each other's commit statistics
+        g_perturb.pointMask.store(1ull << (galois::verif::DET_ROUND & 63), std::memory_order_relaxed);
+        g_perturb.maxDelayUs.store(400, std::memory_order_relaxed);
+        g_perturb.pointProb.store(30000, std::memory_order_relaxed);
+      } else
+        g_perturb.pointMask.store(~0ull, std::memory_order_relaxed);
       c.loopActive.store(1);
       runDet(c, variant);
       c.loopActive.store(0);
@@ -192,10 +210,10 @@ int main(int argc, char** argv) {
     bool nontrivial = distinctT.size() >= 2 && totalObjCommits > 0 && threadsMax >= 2;
     std::string sig = comp + "|" + jarr(threadCounts) + "|s" + std::to_string(nsock) + "|n" +
                       std::to_string(first.committed.size()) + "|o" + std::to_string(first.value.size()) +
-                      (dynamicPush ? "|dyn" : "") + (shuffleInit ? "|shuf" : "");
+                      (dynamicPush ? "|dyn" : "") + (shuffleInit ? "|shuf" : "") + (bigGen ? "|big" : "");
     H.end(k, sig, nontrivial,
           J().kv("runs_compared", R).kv("items_committed", totalCommitted).kv("attempts", totalAttempts)
-              .kv("commits_with_objects_replayed", totalObjCommits)
+              .kv("commits_with_objects_replayed", totalObjCommits).kv("big_generation_cases", (int)bigGen)
               .kv("multi_socket_cases", (int)(nsock > 1 && threadsMax > 1)).str());
   }
   return 0;
